@@ -641,6 +641,26 @@ def gelse2(n: size, x: f32[n + 4], y: f32[n + 4]):
         y[3] = 4.0
 """)
 
+S("guard/alloc_else", "guard", """
+@proc
+def gaelse(n: size, x: f32[n + 2], y: f32[n + 2]):
+    t: f32
+    if n > 1:
+        t = x[0]
+        y[0] = t
+    else:
+        t = x[1]
+        y[1] = t + 1.0
+    for i in seq(0, n):
+        u: f32[2]
+        if i < 1:
+            u[0] = x[i]
+            y[i] = u[0]
+        else:
+            u[1] = y[i - 1]
+            y[i] = u[1] + x[i]
+""")
+
 # ------------------------------------------------------------------ expr
 S("expr/alg", "expr", """
 @proc
